@@ -1051,6 +1051,35 @@ __attribute__((noinline)) int after(int x) { sink += x; return x; }
 int main(void) { pthread_t t; pthread_create(&t, NULL, th, NULL); pthread_join(t, NULL); after(2); printf("%d\n", sink); return 0; }
 """
 
+E2E_WITNESS_NEST_LIBCALL = r"""
+#include <cstdio>
+#include <string>
+__attribute__((noinline)) int thrower(int x) { if (x > 0) throw std::string("x"); return x; }
+int main() { int s = 0; try { s += thrower(1); } catch (std::string &e) { s += (int)e.size(); } printf("%d\n", s); return 6; }
+"""
+
+E2E_WITNESS_NEST_LIBCALL_CATCH = r"""
+#include <cstdio>
+volatile int sink;
+#define NI __attribute__((noinline))
+struct Guard { int v; NI Guard(int v_) : v(v_) { sink += v; } NI ~Guard() { sink += v; printf("dtor %d\n", v); } };
+struct IGuard { int v; IGuard(int v_) : v(v_) {} ~IGuard() { puts("g"); } };
+NI int f14(int x) { IGuard ig(2); puts("p"); throw 49; return x; }
+NI int f12(int x) { Guard g(6); sink += f14(x); return x; }
+NI int f9(int x) { sink += f12(x); return x + 1; }
+NI int f8(int x) { try { sink += f9(x); } catch (int e) { printf("catch %d\n", e); throw 48; } return x; }
+NI int f7(int x) { Guard g(5); sink += f8(x); return x; }
+int main() { try { sink += f7(1); } catch (int e) { printf("catch %d\n", e); } printf("sink %d\n", sink); return 3; }
+"""
+
+E2E_WITNESS_NEST_LIBCALL_RETHROW = r"""
+#include <cstdio>
+volatile int sink;
+__attribute__((noinline)) int thrower(int x) { if (x > 0) throw 42; return x; }
+__attribute__((noinline)) int mid(int x) { try { sink += thrower(x); } catch (int e) { sink += e; throw; } return x; }
+int main() { try { mid(1); } catch (int e) { sink += 10 * e; } printf("%d\n", sink); return 5; }
+"""
+
 E2E_WITNESS_MAX_STACK = r"""
 #include <setjmp.h>
 #include <stdio.h>
@@ -1068,6 +1097,96 @@ __attribute__((noinline)) int g(int x) { G a(10); sink += x; pthread_exit(NULL);
 void *th(void *a) { G b(100); sink += g(1); return NULL; }
 int main(void) { pthread_t t; pthread_create(&t, NULL, th, NULL); pthread_join(t, NULL); printf("%d\n", sink); return 0; }
 """
+
+
+XJMP_PRELUDE = PRELUDE_C + r"""
+#include <sched.h>
+static sigjmp_buf sjb[8];
+static volatile int turn_;
+__attribute__((no_instrument_function)) static void wait_turn(int k)
+{	/* no library call here: it would be traced; a raw sched_yield system call now and then */
+	unsigned n_ = 0;
+	while (__atomic_load_n(&turn_, __ATOMIC_ACQUIRE) != k) {
+		if (++n_ % 64 == 0) { long r_; __asm__ volatile("syscall" : "=a"(r_) : "0"(24L) : "rcx", "r11", "memory"); }
+		else __builtin_ia32_pause();
+	}
+}
+__attribute__((no_instrument_function)) static void next_turn(void)
+{ __atomic_fetch_add(&turn_, 1, __ATOMIC_ACQ_REL); }
+static NI int fn_leaf(int x) { ENTER("fn_leaf"); return x + 1; }
+"""
+
+
+def gen_xjmp(rng, force_cross=False):
+    """several threads, each with its own jmp_buf: setjmp at a random depth, longjmp from a few frames deeper, calls
+    after the jump.  The threads run one at a time (a baton is passed at the segment boundaries begin / setjmp /
+    longjmp), in a random interleaving: replay reads `A:setjmp < B:setjmp < A:longjmp` with B's setjmp shallower or
+    deeper than A's, so the `latest setjmp` it guesses at A's longjmp (file-level statics in utils/fstack.c) is another
+    task's.  -> (source, tags)"""
+    nt = 2 if force_cross else rng.choice([2, 2, 3])
+    letters = "abc"
+    # random interleaving of the 3 segments of every thread
+    pend = [[(t, 0), (t, 1), (t, 2)] for t in range(nt)]
+    order = []
+    while any(pend):
+        t = rng.choice([i for i in range(nt) if pend[i]])
+        order.append(pend[t].pop(0))
+    depth = [rng.randint(1, 5) for _ in range(nt)]
+    if force_cross:
+        # A:setjmp (deep) < B:setjmp (shallower) < A:longjmp
+        order = [(0, 0), (1, 0), (0, 1), (1, 1), (0, 2), (1, 2)] if rng.random() < 0.5 else \
+                [(1, 0), (0, 0), (0, 1), (1, 1), (1, 2), (0, 2)]
+        depth = [rng.randint(3, 5), rng.randint(1, 2)]
+    turn = {ev: i for i, ev in enumerate(order)}
+    tags = {"xjmp", "thread", "longjmp", "xjmp:threads=%d" % nt}
+    out = [XJMP_PRELUDE]
+    for t in range(nt):
+        L = letters[t]
+        k, j = depth[t], rng.randint(0, 3)
+        fam = rng.choice([("setjmp(jb[%d])", "longjmp(jb[%d], 1)"), ("_setjmp(jb[%d])", "longjmp(jb[%d], 1)"),
+                          ("sigsetjmp(sjb[%d], 1)", "siglongjmp(sjb[%d], 1)")])
+        names = ["fn_%s%d" % (L, i + 1) for i in range(k)] + ["fn_%sm%d" % (L, i + 1) for i in range(j)]
+        for nme in names:
+            out.append("static int %s(int x);" % nme)
+        jump = ("next_turn(); wait_turn(%d); logline(\"L\", \"jb\", %d); %s;" % (turn[(t, 2)], t, fam[1] % t))
+        # the frames between the setjmp and the longjmp
+        for i in range(j):
+            nme = "fn_%sm%d" % (L, i + 1)
+            pre = "CALL(fn_leaf, 1); " if rng.random() < 0.4 else ""
+            if i == j - 1:
+                out.append("static NI int %s(int x) { ENTER(\"%s\"); %s%s return x; }" % (nme, nme, pre, jump))
+            else:
+                out.append("static NI int %s(int x) { ENTER(\"%s\"); %sCALL(fn_%sm%d, 1); return x; }" % (nme, nme, pre, L, i + 2))
+        down = "CALL(fn_%sm1, 1);" % L if j else jump
+        after = " ".join("CALL(fn_leaf, %d);" % (i + 2) for i in range(rng.randint(1, 3)))
+        for i in range(k):
+            nme = "fn_%s%d" % (L, i + 1)
+            post = "CALL(fn_leaf, 9); " if rng.random() < 0.6 else ""
+            if i == k - 1:
+                out.append("static NI int %s(int x) { ENTER(\"%s\"); { volatile int sd_ = D;\n"
+                           "\tnext_turn(); wait_turn(%d); logline(\"J\", \"jb\", %d);\n"
+                           "\tif (%s == 0) { %s } else { D = sd_; %s } }\n\t%sreturn x; }"
+                           % (nme, nme, turn[(t, 1)], t, fam[0] % t, down, after, post))
+            else:
+                out.append("static NI int %s(int x) { ENTER(\"%s\"); CALL(fn_%s%d, 1); %sreturn x; }" % (nme, nme, L, i + 2, post))
+        out.append("static void *th_%s(void *p) { (void)p; TASK = %d; D = 1; wait_turn(%d); sink += fn_%s1(1); next_turn(); return NULL; }"
+                   % (L, t + 1, turn[(t, 0)], L))
+        # was the latest setjmp in the trace another task's when this task jumped, and at which depth?
+        lj = order.index((t, 2))
+        last_sj = max((order.index((u, 1)), u) for u in range(nt) if order.index((u, 1)) < lj)[1]
+        if last_sj != t:
+            tags.add("xjmp:foreign-guess-%s" % ("shallower" if depth[last_sj] < depth[t] else
+                                                "deeper" if depth[last_sj] > depth[t] else "same-depth"))
+        else:
+            tags.add("xjmp:own-guess")
+    out.append("int main(void)\n{\n\tpthread_t th[%d];\n\tsetvbuf(stdout, NULL, _IONBF, 0);\n\tENTER(\"main\");" % nt)
+    for t in range(nt):
+        out.append("\tpthread_create(&th[%d], NULL, th_%s, NULL);" % (t, letters[t]))
+    for t in range(nt):
+        out.append("\tpthread_join(th[%d], NULL);" % t)
+    out.append("\tCALL(fn_leaf, 5);\n\treturn 3;\n}")
+    return "\n".join(out) + "\n", tags
+
 
 FLAGS = {"c": [["-pg", "-O0"], ["-pg", "-O2"], ["-pg", "-O2", "-D_FORTIFY_SOURCE=2"], ["-finstrument-functions", "-O0"],
                ["-finstrument-functions", "-O2"]],
@@ -1105,6 +1224,16 @@ def parse_dump(text):
     return res
 
 
+def parse_dump_seq(text):
+    """the records of all tasks in the order dump prints them (merged by time) -> [(tid, entry|exit, name, depth)]"""
+    res = []
+    for line in text.splitlines():
+        mt = DUMP_RE.match(line)
+        if mt:
+            res.append((int(mt.group(1)), mt.group(2).strip(), mt.group(3), int(mt.group(5))))
+    return res
+
+
 def run_e2e_one(ctx, objdir, wd, name, src, lang, flags, timeout_native=10, timeout_rec=25, record_opts=()):
     """compile, run natively and under uftrace; returns a dict of observations"""
     os.makedirs(wd, exist_ok=True)
@@ -1138,6 +1267,7 @@ def run_e2e_one(ctx, objdir, wd, name, src, lang, flags, timeout_native=10, time
     obs["replay_text"] = rout[:6000]
     drc, dout, _ = sh(["timeout", "30", uft, "dump", "--no-pager", "-d", data], timeout=40, cwd=wd)
     obs["dump"] = parse_dump(dout)
+    obs["dump_seq"] = parse_dump_seq(dout)
     shutil.rmtree(data, ignore_errors=True)
     return obs
 
@@ -1234,12 +1364,20 @@ def run_e2e(ctx, objdir):
     from concurrent.futures import ThreadPoolExecutor
     rng = ctx.rng
     cases = []
-    for i in range(ctx.n(24, 600)):
+    for i in range(ctx.n(24, 450)):
         lang = "c" if i % 5 < 3 else "c++"
         g = E2EGen(rng, lang)
         src = g.source()
         flags = rng.choice(FLAGS[lang])
-        cases.append({"name": "p%d" % i, "src": src, "lang": lang, "flags": flags, "tags": sorted(g.tags)})
+        c = {"name": "p%d" % i, "src": src, "lang": lang, "flags": flags, "tags": sorted(g.tags)}
+        # --nest-libcall: the PLTs of the libraries are hooked too (the unwinder's own calls, libc internals)
+        if flags[0] == "-pg" and rng.random() < 0.3:
+            c["record_opts"] = ["-l"]
+            c["tags"] = c["tags"] + ["record -l"]
+        cases.append(c)
+    for i in range(ctx.n(8, 90)):
+        src, tags = gen_xjmp(rng, force_cross=(i < 2))
+        cases.append({"name": "x%d" % i, "src": src, "lang": "c", "flags": rng.choice(FLAGS["c"]), "tags": sorted(tags)})
     witnesses = [
         {"name": "w_oldjb", "src": E2E_WITNESS_OLD_JMPBUF, "lang": "c", "flags": ["-pg", "-O0"], "key": "replay-older-jmpbuf",
          "what": "longjmp to a jmp_buf that is not the most recent setjmp: replay shows the calls made after the jump one "
@@ -1279,6 +1417,18 @@ def run_e2e(ctx, objdir):
          "record_opts": ["--max-stack=2000"],
          "what": "setjmp with more than MCOUNT_RSTACK_MAX (1024) shadow-stack entries under --max-stack=2000: the snapshot array "
                  "of setup_jmpbuf_rstack overflows its malloc block and the traced program aborts"},
+        {"name": "w_nestlib", "src": E2E_WITNESS_NEST_LIBCALL, "lang": "c++", "flags": ["-pg", "-O2"], "key": "nest-libcall-exception",
+         "record_opts": ["-l"],
+         "what": "record --nest-libcall on a C++ program that throws: the unwinder's own library calls were taken for landing-pad "
+                 "calls (in_exception), every return address was hooked again under its feet and the program died in std::terminate"},
+        {"name": "w_nestlib2", "src": E2E_WITNESS_NEST_LIBCALL_CATCH, "lang": "c++", "flags": ["-pg", "-O0"], "key": "nest-libcall-begin-catch",
+         "record_opts": ["-l"],
+         "what": "record --nest-libcall: the library calls made inside the real __cxa_begin_catch (above the frame of the throw, already "
+                 "unwound) were taken for landing-pad calls and hooked the wrapper's own return slot: the traced program crashed"},
+        {"name": "w_nestlib3", "src": E2E_WITNESS_NEST_LIBCALL_RETHROW, "lang": "c++", "flags": ["-pg", "-O0"], "key": "nest-libcall-rethrow",
+         "record_opts": ["-l"],
+         "what": "record --nest-libcall: __cxa_rethrow starts the unwinder with _Unwind_Resume_or_Rethrow, whose return address was "
+                 "hijacked like an ordinary library call: no handler found, std::terminate"},
     ]
     wd = os.path.join(ctx.scratch, "e2e")
 
@@ -1289,11 +1439,12 @@ def run_e2e(ctx, objdir):
     with ThreadPoolExecutor(max_workers=8) as ex:
         results = list(ex.map(work, cases + witnesses))
     streams = []
+    mstreams = []
     nviol = 0
     for c, obs in zip(cases, results[:len(cases)]):
         probs, stream = judge_e2e(obs)
         tags = ["e2e:" + t for t in c["tags"]] + ["e2e:lang=" + c["lang"], "e2e:" + " ".join(c["flags"])]
-        ctx.case(key=("e2e", c["src"], tuple(c["flags"])), nontrivial=any(t in c["tags"] for t in ("longjmp", "throw", "exit-nested", "thread", "vfork-exec", "signal-handler")),
+        ctx.case(key=("e2e", c["src"], tuple(c["flags"]), tuple(c.get("record_opts", ()))), nontrivial=any(t in c["tags"] for t in ("longjmp", "throw", "exit-nested", "thread", "vfork-exec", "signal-handler")),
                  tags=tags, size=len(c["src"]))
         mach = [p for p in probs if p[0] == "machinery"]
         if mach:
@@ -1303,12 +1454,44 @@ def run_e2e(ctx, objdir):
             nviol += 1
             ctx.violation("C11 violated end-to-end (%s): %s" % (probs[0][0], probs[0][1]),
                           {"mode": "e2e", "program": c["src"], "lang": c["lang"], "flags": c["flags"],
+                           "record_opts": list(c.get("record_opts", ())),
                            "problems": [list(p) for p in probs],
                            "native": {"rc": obs.get("native_rc"), "out": obs.get("native_out", "")[-1500:]},
                            "traced": {"rc": obs.get("traced_status"), "out": obs.get("traced_out", "")[-1500:]},
                            "replay_text": obs.get("replay_text", "")}, True)
         if stream:
             streams.append((c, stream))
+        # several tasks with one jmp_buf each: the merged stream of all tasks for the multi-task replay model
+        if "xjmp" in c["tags"] and obs.get("dump_seq") and len(obs["dump_seq"]) < 3000 and "replay" in obs:
+            es = []
+            for tid, ty, nm, dep in obs["dump_seq"]:
+                if ty == "entry":
+                    kind = "(SSetjmp 0)" if nm in SETJMP_FAMILY else "(SLongjmp 0)" if nm in LONGJMP_FAMILY else "SNormal"
+                    es.append("(%d, SEntry %s)" % (tid, kind))
+                else:
+                    es.append("(%d, SExit %d)" % (tid, dep))
+            mstreams.append((c, es, [(tid, [d for _, d in ents]) for tid, ents in sorted(obs["replay"].items())]))
+    if mstreams:
+        defs = "Definition ms : list (list (N * sev) * list (N * list N)) := [\n%s\n].\n" % ";\n".join(
+            "([%s], [%s])" % ("; ".join(es), "; ".join("(%d, [%s])" % (t, "; ".join("%d" % d for d in ds)) for t, ds in shown))
+            for _, es, shown in mstreams)
+        ev = coq.run_cases(ctx, "replay_task_streams", PRE, defs, [
+            ("mismatch", "bad_indices (fun p => agree_replay_tasks (fst p) (snd p)) ms 0"),
+            ("violations", "bad_indices (fun p => ok_replay_tasks (fst p) (snd p)) ms 0")])
+        if ev is not None:
+            mm = coq.parse_nat_list(ev["mismatch"])
+            vv = coq.parse_nat_list(ev["violations"])
+            ctx.extra["replay_task_streams_checked"] = len(mstreams)
+            for i in vv[:2]:
+                c = mstreams[i][0]
+                ctx.violation("C11 violated: with several tasks calling setjmp/longjmp the depths `uftrace replay` shows differ from "
+                              "the true depths of the merged record stream (ok_replay_tasks rejects the implementation's output)",
+                              {"mode": "e2e-replay", "program": c["src"], "flags": c["flags"], "lang": "c"}, True)
+            if mm and not vv:
+                c = mstreams[mm[0]][0]
+                ctx.violation("multi-task replay model and `uftrace replay` disagree on %d merged record stream(s)" % len(mm),
+                              {"mode": "e2e-replay", "correspondence": "C11.Model.rpm_run vs uftrace replay",
+                               "first_disagreement": {"program": c["src"], "flags": c["flags"], "lang": "c"}}, False)
     # record streams of the setjmp/longjmp programs against the replay model, inside Coq
     wres = dict(zip([w["name"] for w in witnesses], results[len(cases):]))
     wprobs = {}
@@ -1362,7 +1545,8 @@ def run_e2e(ctx, objdir):
         still = bool(probs) and not any(p[0] == "machinery" for p in probs)
         ctx.case(key=("witness", w["key"]), tags=["e2e:witness:" + w["key"], "e2e:witness-%s" % ("fails" if still else "passes")])
         # listed -> KNOWN-FINDING; unlisted and still failing -> VIOLATION (ctx.known_finding does both)
-        ctx.known_finding(w["key"], w["what"], still, {"mode": "e2e", "program": w["src"], "flags": w["flags"]})
+        ctx.known_finding(w["key"], w["what"], still, {"mode": "e2e", "program": w["src"], "flags": w["flags"],
+                                                       "lang": w["lang"], "record_opts": list(w.get("record_opts", ()))})
         if still:
             cand.append({"key": w["key"], "what": w["what"], "observed": [list(p) for p in probs], "flags": w["flags"]})
     ctx.extra["candidate_findings"] = cand
@@ -1400,17 +1584,17 @@ def has_nonlocal(ops):
 def run_inproc(ctx, objdir):
     h = Harness(ctx, objdir)
     progs = [({"corpus"}, c) for c in CORPUS + [WITNESS_RESUME_ALIAS, MIXED_CHAIN]]
-    for i in range(ctx.n(150, 6000)):
+    for i in range(ctx.n(150, 4000)):
         tags = set()
         realistic = ctx.rng.random() < 0.6
         tags.add("slots:call-site" if realistic else "slots:free")
         ops = Prog(ctx.rng, tags, realistic).run(ctx.rng.choice([15, 30, 50, 70]))
         progs.append((tags, ops))
     frees = [WITNESS_FENTRY]
-    for i in range(ctx.n(200, 5000)):
+    for i in range(ctx.n(200, 3500)):
         frees.append(gen_free(ctx.rng, ctx.rng.choice([8, 20, 40])))
     vprogs = []
-    for i in range(ctx.n(60, 1500)):
+    for i in range(ctx.n(60, 1000)):
         tags = set()
         realistic = ctx.rng.random() < 0.6
         tags.add("slots:call-site" if realistic else "slots:free")
@@ -1510,7 +1694,8 @@ def replay(ctx, obj):
     if prog:
         flags = obj.get("flags") or (obj.get("first_disagreement") or {}).get("flags") or ["-pg", "-O0"]
         lang = obj.get("lang") or ("c++" if "#include <c" in prog or "try {" in prog else "c")
-        obs = run_e2e_one(ctx, objdir, os.path.join(ctx.scratch, "replay"), "r", prog, lang, flags, timeout_rec=15)
+        obs = run_e2e_one(ctx, objdir, os.path.join(ctx.scratch, "replay"), "r", prog, lang, flags, timeout_rec=15,
+                          record_opts=obj.get("record_opts") or ())
         probs, stream = judge_e2e(obs)
         ctx.case(key="replay-e2e", sample={"problems": [list(p) for p in probs]})
         ctx.log("replayed end-to-end case:", probs)
